@@ -6,8 +6,9 @@
    `write enc w path b` = the bytes stored by writer entry point `w` for serialised text `b`;
    `read dec r path stored` = the bytes reader entry point `r` hands to its parser (None = the
    read fails).  All statements are for ALL byte strings and ALL paths. *)
-From Coq Require Import List ZArith Bool.
-From IB Require Import IO.Compression Proofs.CompressionProofs Proofs.CompressionRegistryProofs.
+From Coq Require Import List ZArith NArith Bool.
+From IB Require Import IO.Compression IO.CompressionPayload IO.Jsonl Proofs.CompressionProofs
+  Proofs.CompressionRegistryProofs Proofs.CompressionPayloadProofs Proofs.CompressionLengthProofs.
 Import ListNotations.
 Open Scope Z_scope.
 
@@ -349,4 +350,241 @@ Example c10_register_neutral_verbatim_ex :
   let reg := reg_view (reg_run [OpRegister ex_custom]) in
   write_in exr_enc reg WCsvVec p_csv bz_text = bz_text /\
   read_in exr_dec reg RCsvVec p_csv bz_text = Some bz_text.
+Proof. split; vm_compute; reflexivity. Qed.
+
+(* ====================================================================================
+   The SIZE dimension: contents of any length, read patterns across the 8 KiB buffer, serialised
+   JSONL / CSV text of any number of records, a second write to the same name.
+   ==================================================================================== *)
+
+(* detection by content looks at the first six bytes and nothing else: the decision cannot
+   depend on how long the content is or on what follows *)
+Theorem c10_magic_window : forall s, detect_magic s = detect_magic (firstn 6 s).
+Proof. exact detect_magic_window. Qed.
+
+Example c10_magic_window_ex :
+  detect_magic (signature Xz ++ repeat 7 (Z.to_nat 20000)) = Some Xz /\
+  firstn 6 (signature Xz ++ repeat 7 (Z.to_nat 20000)) = signature Xz.
+Proof. split; vm_compute; reflexivity. Qed.
+
+Theorem c10_reader_size_independent :
+  forall r path h t1 t2, (6 <= length h)%nat ->
+    ep_reader_codec r path (h ++ t1) = ep_reader_codec r path (h ++ t2).
+Proof. exact reader_codec_size_independent. Qed.
+
+(* an xz header followed by nothing / by 20000 more bytes, neutral key, cloud reader *)
+Example c10_reader_size_independent_ex :
+  (6 <= length (signature Xz))%nat /\
+  ep_reader_codec RCloudJsonl p_csv (signature Xz ++ []) = Some Xz /\
+  ep_reader_codec RCloudJsonl p_csv (signature Xz ++ repeat 7 (Z.to_nat 20000)) = Some Xz.
+Proof. split; [cbn; repeat constructor|]. split; vm_compute; reflexivity. Qed.
+
+(* the peek of auto_detect_reader is BufReader::fill_buf on a fresh BufReader ... *)
+Theorem c10_peek_is_fill_buf :
+  forall content, peek content = br_peek buf_capacity (br_new content).
+Proof. exact peek_is_br_peek. Qed.
+
+Example c10_peek_is_fill_buf_ex :
+  length (peek (repeat 1 (Z.to_nat 10000))) = buf_capacity /\
+  br_rest (br_after_peek (repeat 1 (Z.to_nat 10000))) = repeat 1 (Z.to_nat 1808).
+Proof. split; vm_compute; reflexivity. Qed.
+
+(* ... and it consumes nothing: whatever sizes the consumer (decoder, line reader) then reads with,
+   it receives the content from its first byte, for contents of every length *)
+Theorem c10_after_peek_stream :
+  forall content ks,
+    concat (fst (br_reads buf_capacity ks (br_after_peek content)))
+    ++ br_remaining (snd (br_reads buf_capacity ks (br_after_peek content))) = content.
+Proof. exact after_peek_stream. Qed.
+
+(* 10000 bytes; reads of 3, 9000 (larger than the buffer while it still holds 8189 bytes), 5000 *)
+Example c10_after_peek_stream_ex :
+  map (@length Z) (fst (br_reads buf_capacity (map Z.to_nat [3; 9000; 5000]) (br_after_peek (repeat 1 (Z.to_nat 10000)))))
+  = map Z.to_nat [3; 8189; 1808] /\
+  br_remaining (snd (br_reads buf_capacity (map Z.to_nat [3; 9000; 5000]) (br_after_peek (repeat 1 (Z.to_nat 10000))))) = [].
+Proof. split; vm_compute; reflexivity. Qed.
+
+Theorem c10_bufreader_progress :
+  forall cap k b, (0 < cap)%nat -> (0 < k)%nat -> br_remaining b <> [] ->
+    fst (br_read cap k b) <> [].
+Proof. exact br_read_progress. Qed.
+
+Example c10_bufreader_progress_ex :
+  (0 < 4)%nat /\ (0 < 9)%nat /\ br_remaining (br_new [1; 2; 3; 4; 5; 6]) <> [] /\
+  fst (br_read 4 9 (br_new [1; 2; 3; 4; 5; 6])) = [1; 2; 3; 4; 5; 6] /\
+  fst (br_read 4 2 (br_new [1; 2; 3; 4; 5; 6])) = [1; 2].
+Proof. repeat split; try (vm_compute; reflexivity); try (repeat constructor). discriminate. Qed.
+
+(* two records: ("BZ", 1), ("k", 10) *)
+Definition ex_recs : list prec := [([66; 90], 1%N); ([107], 10%N)].
+
+(* length of the text the JSONL / CSV writers produce, for any number of records *)
+Theorem c10_text_length :
+  forall rs, length (jsonl_text rs) = sum_nat (map jsonl_line_len rs) /\
+             length (csv_text rs) = sum_nat (map csv_line_len rs).
+Proof. exact (fun rs => conj (jsonl_text_length rs) (csv_text_length rs)). Qed.
+
+(* {"k":"BZ","v":1}\n{"k":"k","v":10}\n  and  BZ,1\nk,10\n *)
+Example c10_text_length_ex :
+  length (jsonl_text ex_recs) = 34%nat /\ sum_nat (map jsonl_line_len ex_recs) = 34%nat /\
+  csv_text ex_recs = [66; 90; 44; 49; 10; 107; 44; 49; 48; 10].
+Proof. repeat split; vm_compute; reflexivity. Qed.
+
+(* payloads given by generator parameters have the announced shape, whatever the key characters *)
+Theorem c10_payload_shape :
+  forall kc g, length (pl_recs kc g) = N.to_nat (pg_n g) /\
+               forall i, length (pl_key kc g i) = N.to_nat (pl_keylen g i).
+Proof. exact (fun kc g => conj (pl_recs_length kc g) (pl_key_length kc g)). Qed.
+
+Example c10_payload_shape_ex :
+  let g := {| pg_n := 3; pg_klen := 2; pg_k0len := 5 |} in
+  pl_recs (fun i j => 65 + Z.of_N i + Z.of_N j) g
+  = [([65; 66; 67; 68; 69], 0%N); ([66; 67], 1%N); ([67; 68], 2%N)].
+Proof. vm_compute. reflexivity. Qed.
+
+(* the closed-form text length the correspondence run computes from the generator parameters
+   (records * overhead + key lengths + number of decimal digits of 0 .. n-1) is the length of the
+   rendered text, for every payload of up to 10^40 records *)
+Theorem c10_payload_text_length :
+  forall kc g, (pg_n g <= 10 ^ 40)%N ->
+    N.of_nat (length (jsonl_text (pl_recs kc g))) = pl_text_len 14 g /\
+    N.of_nat (length (csv_text (pl_recs kc g))) = pl_text_len 2 g.
+Proof. exact (fun kc g H => conj (jsonl_payload_length kc g H) (csv_payload_length kc g H)). Qed.
+
+(* 12 records: ten one-digit and two two-digit values *)
+Example c10_payload_text_length_ex :
+  let g := {| pg_n := 12; pg_klen := 2; pg_k0len := 5 |} in
+  (pg_n g <= 10 ^ 40)%N /\ pl_text_len 14 g = 209%N /\
+  length (jsonl_text (pl_recs (fun _ _ => 120) g)) = 209%nat /\ pl_text_len 2 g = 65%N.
+Proof. cbv zeta. split; [vm_compute; discriminate|]. repeat split; vm_compute; reflexivity. Qed.
+
+(* JSONL text of ANY size under ANY name (codec-named or neutral) comes back unchanged through
+   every pair of detecting entry points: it is never mistaken for compressed data *)
+Theorem c10_jsonl_text_transparent :
+  forall (enc : codec -> bytes -> bytes) (dec : codec -> bytes -> option bytes),
+    (forall c b, dec c (enc c b) = Some b) ->
+    (forall c b, starts_with (signature c) (enc c b) = true) ->
+    forall w r path rs,
+      writer_detects w = true -> reader_detects r = true ->
+      read dec r path (write enc w path (jsonl_text rs)) = Some (jsonl_text rs).
+Proof. exact jsonl_text_transparent. Qed.
+
+Example c10_jsonl_text_transparent_ex :
+  read ex_dec RCloudJsonlGlob p_csv (write ex_enc WCloudJsonl p_csv (jsonl_text ex_recs))
+  = Some (jsonl_text ex_recs) /\
+  read ex_dec RJsonlStreamPar p_GZ (write ex_enc WPcJsonlPar p_GZ (jsonl_text ex_recs))
+  = Some (jsonl_text ex_recs).
+Proof. split; vm_compute; reflexivity. Qed.
+
+(* what the line-based readers (BufRead::lines: local, streaming and cloud JSONL readers) get:
+   exactly one line per record, in order, for any number of records - nothing cut, nothing added *)
+Theorem c10_jsonl_lines :
+  forall rs, (forall r, In r rs -> key_one_line (fst r)) ->
+    lines (jsonl_text rs) = map jsonl_body rs.
+Proof. exact lines_jsonl_text. Qed.
+
+Example c10_jsonl_lines_ex :
+  (forall r, In r ex_recs -> key_one_line (fst r)) /\
+  map (@length Z) (lines (jsonl_text ex_recs)) = [16; 16]%nat.
+Proof.
+  split; [|vm_compute; reflexivity].
+  intros r [<- | [<- | []]] x Hx; cbn in Hx;
+    repeat (destruct Hx as [<- | Hx]; [split; discriminate|]); contradiction.
+Qed.
+
+Theorem c10_jsonl_roundtrip_lines :
+  forall (enc : codec -> bytes -> bytes) (dec : codec -> bytes -> option bytes),
+    (forall c b, dec c (enc c b) = Some b) ->
+    (forall c b, starts_with (signature c) (enc c b) = true) ->
+    forall w r path rs,
+      writer_detects w = true -> reader_detects r = true ->
+      (forall x, In x rs -> key_one_line (fst x)) ->
+      option_map lines (read dec r path (write enc w path (jsonl_text rs))) = Some (map jsonl_body rs).
+Proof. exact jsonl_roundtrip_lines. Qed.
+
+Example c10_jsonl_roundtrip_lines_ex :
+  option_map (@length (list Z))
+    (option_map lines (read ex_dec RCloudJsonl p_GZ (write ex_enc WCloudJsonl p_GZ (jsonl_text ex_recs))))
+  = Some 2%nat.
+Proof. vm_compute. reflexivity. Qed.
+
+(* no signature contains a comma: CSV text begins with a signature iff its first field does *)
+Theorem c10_csv_first_field :
+  forall c k rest, starts_with (signature c) (k ++ 44 :: rest) = starts_with (signature c) k.
+Proof. exact csv_first_field. Qed.
+
+Example c10_csv_first_field_ex :
+  starts_with (signature Bzip2) ([66; 90] ++ 44 :: [49; 10]) = false /\
+  starts_with (signature Bzip2) ([66; 90; 104; 57] ++ 44 :: [49; 10]) = true.
+Proof. split; vm_compute; reflexivity. Qed.
+
+Theorem c10_csv_text_transparent :
+  forall (enc : codec -> bytes -> bytes) (dec : codec -> bytes -> option bytes),
+    (forall c b, dec c (enc c b) = Some b) ->
+    (forall c b, starts_with (signature c) (enc c b) = true) ->
+    forall w r path rs,
+      writer_detects w = true -> reader_detects r = true ->
+      (forall c, starts_with (signature c) (match rs with [] => [] | r0 :: _ => fst r0 end) = false) ->
+      read dec r path (write enc w path (csv_text rs)) = Some (csv_text rs).
+Proof. exact csv_text_transparent. Qed.
+
+(* first field "BZ": a proper prefix of the bzip2 signature *)
+Example c10_csv_text_transparent_ex :
+  (forall c, starts_with (signature c) (match ex_recs with [] => [] | r0 :: _ => fst r0 end) = false) /\
+  read ex_dec RCsvStreamSeq p_csv (write ex_enc WCsvPar p_csv (csv_text ex_recs)) = Some (csv_text ex_recs).
+Proof. split; [intros c; destruct c; vm_compute; reflexivity | vm_compute; reflexivity]. Qed.
+
+(* ---------- a second write to the same name ---------- *)
+(* the name holds what the LAST write put there, whatever was there before (same length or not);
+   other names are untouched *)
+Theorem c10_rewrite_last_wins :
+  forall (enc : cid -> bytes -> bytes) reg st w name a b,
+    store_get (store_write enc reg (store_write enc reg st w name a) w name b) name
+    = store_get (store_write enc reg [] w name b) name /\
+    forall other, other <> name ->
+      store_get (store_write enc reg st w name b) other = store_get st other.
+Proof.
+  exact (fun enc reg st w name a b =>
+           conj (write_to_last_wins enc reg st w name a b)
+                (fun other => write_to_other_untouched enc reg st w name b other)).
+Qed.
+
+(* two texts of the same length under the neutral key "data.csv" *)
+Example c10_rewrite_last_wins_ex :
+  store_get (store_write exr_enc builtin_entries
+               (store_write exr_enc builtin_entries [(p_gz, [9])] WCloudJsonl p_csv [1; 2; 3])
+               WCloudJsonl p_csv [4; 5; 6]) p_csv = Some [4; 5; 6] /\
+  store_get (store_write exr_enc builtin_entries [(p_gz, [9])] WCloudJsonl p_csv [4; 5; 6]) p_gz = Some [9].
+Proof. split; vm_compute; reflexivity. Qed.
+
+Theorem c10_rewrite_ext_roundtrip :
+  forall (enc : cid -> bytes -> bytes) (dec : cid -> bytes -> option bytes),
+    (forall c b, dec (CBuiltin c) (enc (CBuiltin c) b) = Some b) ->
+    (forall c b, starts_with (signature c) (enc (CBuiltin c) b) = true) ->
+    forall ops st c w r name a b,
+      writer_detects w = true -> reader_detects r = true -> has_ext c name = true ->
+      let reg := reg_view (reg_run ops) in
+      let st' := store_write enc reg (store_write enc reg st w name a) w name b in
+      store_get st' name = Some (enc (CBuiltin c) b) /\ store_read dec reg st' r name = Some b.
+Proof. exact rewrite_ext_roundtrip. Qed.
+
+Example c10_rewrite_ext_roundtrip_ex :
+  let reg := reg_view (reg_run [OpGet]) in
+  let st' := store_write exr_enc reg (store_write exr_enc reg [] WJsonlPar p_gz [1; 2; 3; 4]) WJsonlPar p_gz [5] in
+  store_get st' p_gz = Some [31; 139; 5] /\ store_read exr_dec reg st' RJsonlRange p_gz = Some [5].
+Proof. split; vm_compute; reflexivity. Qed.
+
+Theorem c10_rewrite_neutral_verbatim :
+  forall (enc : cid -> bytes -> bytes) (dec : cid -> bytes -> option bytes) ops st w r name a b,
+    detect_ext name = None -> no_custom_ext (registered ops) name ->
+    (forall c, starts_with (signature c) b = false) -> no_custom_magic (registered ops) b ->
+    let reg := reg_view (reg_run ops) in
+    let st' := store_write enc reg (store_write enc reg st w name a) w name b in
+    store_get st' name = Some b /\ store_read dec reg st' r name = Some b.
+Proof. exact rewrite_neutral_verbatim. Qed.
+
+Example c10_rewrite_neutral_verbatim_ex :
+  let reg := reg_view (reg_run [OpRegister ex_custom]) in
+  let st' := store_write exr_enc reg (store_write exr_enc reg [] WCsvVec p_csv (csv_text ex_recs)) WCsvVec p_csv bz_text in
+  store_get st' p_csv = Some bz_text /\ store_read exr_dec reg st' RCsvVec p_csv = Some bz_text.
 Proof. split; vm_compute; reflexivity. Qed.
